@@ -4,7 +4,7 @@ be held in place hunk by hunk (a partial regression of a fixed defect must turn 
 usage: tools/partial_reverts.py     (scratch copies under /var/tmp, removed afterwards)"""
 import json, os, re, shutil, subprocess, sys, tempfile
 ROOT = os.path.dirname(os.path.dirname(os.path.abspath(__file__)))
-OWN = {"7ed8e24": ["C05"], "f415fe0": ["C04"], "768b3a4": ["C17", "C16", "C11"], "04a002a": ["C18", "C14", "C15"], "5a354e8": ["C16", "C11"], "43ba227": ["C11", "C07"],
+OWN = {"7f5c760": ["C05"], "7ed8e24": ["C05"], "f415fe0": ["C04"], "768b3a4": ["C17", "C16", "C11"], "04a002a": ["C18", "C14", "C15"], "5a354e8": ["C16", "C11"], "43ba227": ["C11", "C07"],
        "4b70602": ["C10", "C11"], "1845d3d": ["C07"], "61fe82f": ["C12"], "9fbf0fb": ["C19", "C07"]}
 
 
